@@ -36,6 +36,8 @@ def obligations(tier):
            module=H, func='e_settings_hc', timeout=900, shards=4),
         Ob('E.enc', 'E', 'same over cipher x kdf x encryption-mode pools', '18 x 13 x 4 x 2 = 1872', [Rp + 'init', Rp + '_make_key', Rp + '_instantiate_key',
            Rp + '_validate_init_settings'], module=H, func='e_settings_enc', timeout=900, shards=8),
+        Ob('E.cli', 'E', 'CLI: the password add-key stores (-N file / -n string) is byte for byte the one later commands read (-P file / -p string)', '8 file contents x 3 commands',
+           ['replicat.utils.cli:make_main_parser'], module=H, func='e_cli_password', timeout=300),
         Ob('E.addkey', 'E', 'chains of 3 add-key calls: each key unlocks with its own password only and works; rejected calls write nothing',
            '2x7x2x7x2x3 = 1176', [Rp + 'add_key', Rp + '_add_key', Rp + 'unlock'], module=H, func='e_addkey', timeout=1200, shards=8),
     ]
